@@ -13,7 +13,8 @@ Event mapping (hook sites of `thread_pool_scheduler_bulk.hpp` / `contiguous_inde
 * `bulk.chunk` → `chunk`; `live.cbeg i v` → `call k i v`; `live.cret` → `ret k`;
   `live.cthrow` → `throw k`; `live.run first count` (consecutive calls that got the expected
   value pack and returned, observed one by one inside `f`) → `count` × (`call`, `ret`);
-* `bulk.exc` → `exc`; `bulk.last / bulk.notlast` → `dec k true/false`;
+* `bulk.exc` → `exc`; `bulk.last / bulk.notlast` → `dec k true/false`; `bulk.decide k b` (logged in
+  the `set_error` / `set_value` branch of `finish()`) → `decide k (b ≠ 0)`;
 * `live.value v` → `sig false v`; `live.error idx` → `sig true idx`.
 
 The worker `k` of an index-queue / call event is the task the OS thread is running
@@ -70,6 +71,7 @@ def compStep (qobjs : List Nat) (tok : Int) (p : CState) (l : Line) : CState :=
   | "bulk.exc" => p.ev (.exc l.a.toNat) l.raw
   | "bulk.last" => p.ev (.dec l.a.toNat true) l.raw
   | "bulk.notlast" => p.ev (.dec l.a.toNat false) l.raw
+  | "bulk.decide" => p.ev (.decide l.a.toNat (l.b != 0)) l.raw
   | "live.value" => p.ev (.sig false l.a) l.raw
   | "live.error" => p.ev (.sig true l.a) l.raw
   | "live.cbeg" => worker (fun k => p.ev (.call k l.a l.b) l.raw)
